@@ -224,6 +224,13 @@ def part_drive(res, rng, n_tuples):
             kw["curve"] = curve
         mc = p.new_module(MultiCtl, **kw)
         mc >> mods
+        if curve is None and rng.random() < 0.5:
+            # an unrelated MultiCtl (own project) has its curve table redrawn in place, non-monotonically;
+            # the bundle under test was created with the default curve and must keep behaving like it
+            other = api.Project().new_module(MultiCtl)
+            for i in range(257):
+                other.curve.values[i] = (i * 7919) % 32769 if i % 2 else 32768 - (i * 101) % 32768
+            res.count("sibling_curve_scribbles")
         case = {"gain": gain, "quantization": quant, "curve": "default" if curve is None else curve[::32],
                 "targets": [list(c) for c in chosen]}
         snaps = []
